@@ -1,19 +1,24 @@
 /* alloc_fail: C19 -- allocation failure is reported by nsync_note_new / nsync_counter_new,
    not crashed on, and leaves every existing object unchanged and usable.
 
-   Linked with -Wl,--wrap=malloc: the runtime fails the k-th malloc whose caller lies inside
-   nsync_note_new or nsync_counter_new (function extents from dladdr1/ELF symbol sizes);
-   allocations made elsewhere (e.g. the waiter pool behind nsync_mu_lock) are counted but
-   never failed -- the statement is about the constructors.
+   Linked with -Wl,--wrap=malloc,--wrap=calloc: the runtime fails the k-th allocation made by a
+   thread while it is inside a constructor call (the harness brackets every call), wherever in
+   the library it comes from (so a constructor split into helpers is still covered), except
+   allocations made by the waiter pool behind nsync_mu_lock (caller inside nsync_waiter_new_,
+   extent from dladdr1/ELF symbol size): those are counted but never failed -- the statement
+   is about the constructors.
 
    Round r: thread 0 builds a tree of 7 notes and 3 counters (10 constructor calls); with
    two threads, thread 1 concurrently polls the root, creates and frees children of the root
    and counters of its own (contending for the root's lock) and finally waits, without
    deadline, on a note that existed before the failure.  k = r mod 13 (k >= number of calls
    = control round without failure).  Every constructor call goes through a helper that, on
-   NULL: checks the intended parent (not notified, same expiry), retries (must succeed).
+   NULL: checks the intended parent (notified state and expiry unchanged), retries (must succeed).
    After both threads finished constructing, thread 0 notifies the root: every live note must
-   be notified, the waiter must return; then everything is freed (ASan build).
+   be notified, the waiter must return.  Then it constructs four more notes whose parents are
+   ALREADY notified or expired (children of the notified root, of a notified leaf, of a note
+   whose deadline has passed and was / was not observed): the failure index can land there too.
+   Finally everything is freed (ASan build).
    Oracle: #NULL returns == #failed mallocs (each failure reported, no spurious NULL), no
    crash, no hang, propagation intact.  */
 #define _GNU_SOURCE
@@ -22,9 +27,11 @@
 #include <link.h>
 
 #define NNOTE 7
+#define NLATE 4
 #define NCTR 3
 static struct {
 	nsync_note note[NNOTE + 8]; int nnote;
+	nsync_note late[NLATE], expired[2];
 	nsync_counter ctr[NCTR]; int nctr;
 	int nulls;              /* NULL returns seen (both threads) */
 	int calls;
@@ -32,7 +39,7 @@ static struct {
 	int t1_done_constructing;
 	int fn_ok;
 } S;
-enum { CV_NULLS = 0, CV_CALLS, CV_CONTROL_ROUNDS, CV_OTHER_MALLOCS, CV_NOTE_NULL, CV_CTR_NULL, CV_T1_NULL };
+enum { CV_NULLS = 0, CV_CALLS, CV_CONTROL_ROUNDS, CV_OTHER_MALLOCS, CV_NOTE_NULL, CV_CTR_NULL, CV_T1_NULL, CV_PARENT_NOTIFIED, CV_NULL_NOTIFIED_PARENT };
 
 static void fn_range (void *fn, const char *name) {
 	Dl_info info; ElfW(Sym) *sym = NULL;
@@ -43,17 +50,20 @@ static void fn_range (void *fn, const char *name) {
 
 static nsync_note mk_note (nsync_note parent, nsync_time dl, int tid) {
 	nsync_note n;
-	nsync_time pexp = nsync_time_zero;
-	if (parent != NULL) pexp = nsync_note_expiry (parent);
+	nsync_time pexp = nsync_time_zero; int pq = 0;
+	if (parent != NULL) { pexp = nsync_note_expiry (parent); pq = nsync_note_is_notified (parent); if (pq) rt_cover (CV_PARENT_NOTIFIED); }
 	__atomic_fetch_add (&S.calls, 1, __ATOMIC_RELAXED); rt_cover (CV_CALLS);
+	rt_malloc_scope (1);
 	RT_OP ("nsync_note_new", n = nsync_note_new (parent, dl));
+	rt_malloc_scope (-1);
 	if (n == NULL) {
 		__atomic_fetch_add (&S.nulls, 1, __ATOMIC_RELAXED); rt_cover (CV_NULLS); rt_cover (CV_NOTE_NULL); if (tid) rt_cover (CV_T1_NULL);
 		rt_mark_nontrivial ();
 		if (parent != NULL) {
 			int q; RT_OP ("nsync_note_is_notified", q = nsync_note_is_notified (parent));
-			if (q) rt_violation ("parent-changed", "notified", "after nsync_note_new failed for lack of memory its intended parent is notified");
-			if (nsync_time_cmp (nsync_note_expiry (parent), pexp) != 0) rt_violation ("parent-changed", "expiry", "after nsync_note_new failed the parent's expiry changed");
+			if (pq) rt_cover (CV_NULL_NOTIFIED_PARENT);
+			if (q != pq) rt_violation ("parent-changed", "notified", "after nsync_note_new failed for lack of memory its intended parent's notified state changed from %d to %d", pq, q);
+			if (!pq && nsync_time_cmp (nsync_note_expiry (parent), pexp) != 0) rt_violation ("parent-changed", "expiry", "after nsync_note_new failed the parent's expiry changed");
 		}
 		RT_OP ("nsync_note_new", n = nsync_note_new (parent, dl));
 		if (n == NULL) rt_violation ("retry-failed", "nsync_note_new", "nsync_note_new returned NULL again although memory is available");
@@ -63,7 +73,9 @@ static nsync_note mk_note (nsync_note parent, nsync_time dl, int tid) {
 static nsync_counter mk_ctr (uint32_t v, int tid) {
 	nsync_counter c;
 	__atomic_fetch_add (&S.calls, 1, __ATOMIC_RELAXED); rt_cover (CV_CALLS);
+	rt_malloc_scope (1);
 	RT_OP ("nsync_counter_new", c = nsync_counter_new (v));
+	rt_malloc_scope (-1);
 	if (c == NULL) {
 		__atomic_fetch_add (&S.nulls, 1, __ATOMIC_RELAXED); rt_cover (CV_NULLS); rt_cover (CV_CTR_NULL); if (tid) rt_cover (CV_T1_NULL);
 		rt_mark_nontrivial ();
@@ -86,6 +98,13 @@ static void body (int tid) {
 		RT_OP ("nsync_note_notify", nsync_note_notify (S.note[0]));
 		for (i = 0; i < S.nnote; i++) { int q; RT_OP ("nsync_note_is_notified", q = nsync_note_is_notified (S.note[i]));
 			if (!q) rt_violation ("propagation-broken", "descendant", "after a constructor failure, notifying the root did not notify descendant %d", i); }
+		/* constructors whose parent is already notified / expired */
+		{ int q; RT_OP ("nsync_note_is_notified", q = nsync_note_is_notified (S.expired[0])); (void) q; }      /* expired[0]: expiry observed; expired[1]: not yet looked at */
+		for (i = 0; i < NLATE; i++) {
+			nsync_note parent = i == 0 ? S.note[0] : i == 1 ? S.note[NNOTE - 1] : S.expired[i - 2];
+			S.late[i] = mk_note (parent, rt_rand_n (2) ? nsync_time_no_deadline : far_dl, 0);
+			if (!nsync_note_is_notified (S.late[i])) rt_violation ("born-notified", "late-child", "a note created under a parent that is notified or expired is not notified");
+		}
 	} else {
 		int n = 2 + (int) rt_rand_n (4);
 		for (i = 0; i < n; i++) {
@@ -105,19 +124,24 @@ static int setup (uint64_t seed) {
 	(void) seed;
 	if (!S.fn_ok) {
 		rt_malloc_ranges_clear ();
-		fn_range ((void *) (nsync_note (*) (nsync_note, nsync_time)) &nsync_note_new, "nsync_note_new");
-		fn_range ((void *) (nsync_counter (*) (uint32_t)) &nsync_counter_new, "nsync_counter_new");
+		{ void *wf = dlsym (RTLD_DEFAULT, "nsync_waiter_new_");            /* excluded: the waiter pool (internal symbol; C or C++ name) */
+		  if (wf == NULL) wf = dlsym (RTLD_DEFAULT, "_ZN5nsync17nsync_waiter_new_Ev");
+		  if (wf == NULL) rt_fatal ("cannot find nsync_waiter_new_ (link with -rdynamic)");
+		  fn_range (wf, "nsync_waiter_new_"); }
+		rt_malloc_scope_mode (1);
 		S.fn_ok = 1;
 	}
 	rt_malloc_fail_nth (-1);
-	memset (S.note, 0, sizeof (S.note)); memset (S.ctr, 0, sizeof (S.ctr));
+	memset (S.note, 0, sizeof (S.note)); memset (S.ctr, 0, sizeof (S.ctr)); memset (S.late, 0, sizeof (S.late));
 	S.nulls = 0; S.calls = 0; S.nctr = 0; S.t1_done_constructing = 0;
 	S.note[0] = nsync_note_new (NULL, nsync_time_no_deadline);
 	S.note[1] = nsync_note_new (S.note[0], nsync_time_no_deadline);
-	if (S.note[0] == NULL || S.note[1] == NULL) rt_fatal ("setup allocation failed");
+	S.expired[0] = nsync_note_new (NULL, nsync_time_s_ns (5, 0));      /* deadlines long past */
+	S.expired[1] = nsync_note_new (NULL, nsync_time_s_ns (6, 0));
+	if (S.note[0] == NULL || S.note[1] == NULL || S.expired[0] == NULL || S.expired[1] == NULL) rt_fatal ("setup allocation failed");
 	S.nnote = 2;
-	S.two = (int) (rt_round () / 13) % 2;
-	S.k = (int) (rt_round () % 13);
+	S.two = (int) (rt_round () / 17) % 2;
+	S.k = (int) (rt_round () % 17);
 	rt_ev ((uint32_t) (S.k | S.two << 8));
 	rt_malloc_fail_nth (S.k);
 	return (S.two ? 2 : 1);
@@ -132,12 +156,14 @@ static void check (void) {
 }
 static void teardown (void) {
 	int i;
+	for (i = 0; i < NLATE; i++) if (S.late[i]) nsync_note_free (S.late[i]);
+	nsync_note_free (S.expired[0]); nsync_note_free (S.expired[1]);
 	for (i = S.nnote - 1; i >= 0; i--) if (S.note[i]) nsync_note_free (S.note[i]);
 	for (i = 0; i < S.nctr; i++) if (S.ctr[i]) nsync_counter_free (S.ctr[i]);
 }
 static void describe (FILE *f) { fprintf (f, "{\"fail_allocation_index\":%d,\"threads\":%d,\"constructor_calls\":%d,\"null_returns\":%d}", S.k, S.two ? 2 : 1, S.calls, S.nulls); }
 static void pinit (void) {
 	rt_cover_name (CV_NULLS, "null_returns"); rt_cover_name (CV_CALLS, "constructor_calls"); rt_cover_name (CV_CONTROL_ROUNDS, "rounds_without_failure");
-	rt_cover_name (CV_OTHER_MALLOCS, "non_constructor_mallocs_seen_not_failed"); rt_cover_name (CV_NOTE_NULL, "note_new_null"); rt_cover_name (CV_CTR_NULL, "counter_new_null"); rt_cover_name (CV_T1_NULL, "null_seen_by_concurrent_thread");
+	rt_cover_name (CV_OTHER_MALLOCS, "non_constructor_mallocs_seen_not_failed"); rt_cover_name (CV_NOTE_NULL, "note_new_null"); rt_cover_name (CV_CTR_NULL, "counter_new_null"); rt_cover_name (CV_T1_NULL, "null_seen_by_concurrent_thread"); rt_cover_name (CV_PARENT_NOTIFIED, "constructor_calls_with_notified_or_expired_parent"); rt_cover_name (CV_NULL_NOTIFIED_PARENT, "null_returns_with_notified_or_expired_parent");
 }
 rt_scenario rt_scen = { "alloc_fail", "C19", 2, &pinit, &setup, &body, &check, &teardown, &describe, NULL, &describe, NULL };
